@@ -7,13 +7,15 @@ from vt.ref import hap, tlv8
 
 
 class SetupRun:
-    def __init__(self, seed, style, code="111-22-333", acc_code=None, ios_id="decc6fa3-de3e-41c9-adba-ef7409821bfc", acc_id=b"AA:BB:CC:DD:EE:FF", with_auth=True):
+    def __init__(self, seed, style, code="111-22-333", acc_code=None, ios_id="decc6fa3-de3e-41c9-adba-ef7409821bfc", acc_id=b"AA:BB:CC:DD:EE:FF", with_auth=True, srp=None):
         self.seed, self.style, self.code, self.ios_id = seed, style, code, ios_id
         self.ident = hap.Identity(seed, "acc", acc_id)
         self.other = hap.Identity(seed, "other", b"11:22:33:44:55:66")
         salt = C.det_bytes(seed, "salt", 16)
         b = int.from_bytes(C.det_bytes(seed, "srp-b", 32), "big")
         self.a = int.from_bytes(C.det_bytes(seed, "srp-a", 16), "big")
+        if srp:  # directed SRP inputs (e.g. a mined exchange whose K / S / A / B starts with 0x00)
+            salt, self.a, b = bytes.fromhex(srp["salt"]), int(srp["a"], 16), int(srp["b"], 16)
         self.acc = hap.SetupAccessory(self.ident, acc_code or code, salt, b)
         self.with_auth = with_auth
         self.gen1 = self.gen2 = None
